@@ -94,6 +94,8 @@ pub struct Sched {
     pub reqs: Vec<Req>,
     pub info: SchedInfo,
     pub hold: usize,
+    /// pending "slow observer" clock advance, applied right after the next taken event
+    pub slow_take: Option<i128>,
 }
 
 impl Sched {
@@ -102,7 +104,7 @@ impl Sched {
         lock(&w).eager = false;
         let mut m = Machine::build(&w, false);
         let h = m.ctl.take();
-        Sched { w, m, handles: vec![h], reqs: vec![], info: SchedInfo::default(), hold: 0 }
+        Sched { w, m, handles: vec![h], reqs: vec![], info: SchedInfo::default(), hold: 0, slow_take: None }
     }
 
     fn in_reboot_wait(&self) -> bool {
@@ -119,8 +121,20 @@ impl Sched {
         for _ in 0..10_000 {
             let mut progressed = false;
             if self.hold == 0 && self.machine_alive() && self.m.woken() {
-                self.m.poll_once();
+                let took = self.m.poll_once().is_some();
                 progressed = true;
+                if took {
+                    if let Some(adv) = self.slow_take.take() {
+                        let mut g = lock(&self.w);
+                        g.mono_ns += adv;
+                        g.wall_ns += adv;
+                        g.log.now = (g.wall_ns, g.mono_ns);
+                        let (wall, mono) = (g.wall_ns, g.mono_ns);
+                        g.log.push(Op::Clock { wall, mono });
+                        drop(g);
+                        self.info.steps.push(format!("clock +{} s while the observer sits on the event just taken", adv / 1_000_000_000));
+                    }
+                }
             }
             for r in self.reqs.iter_mut() {
                 if r.woken() {
@@ -245,6 +259,11 @@ impl Sched {
             5 => {
                 self.hold = 1 + t.choose(3);
                 self.info.steps.push(format!("hold consumer for {} steps", self.hold));
+                // a slow observer: after the next event it takes, time passes (both clocks move on) before it polls again -
+                // the state machine is then suspended inside that emission while the clock advances
+                if t.flag() {
+                    self.slow_take = Some(*t.pick(&[1_000_000_000i128, 40_000_000_000, 3_600_000_000_000]));
+                }
             }
             6 => {
                 if self.hold == 0 && self.machine_alive() {
